@@ -7,6 +7,10 @@
         ts    : comma list of timestamps (ascending), vals: comma list of tagged values
                 (`f<16 hex>` float bits, `i<dec>`, `u<dec>`, `x<hex>` string, `b0|b1`)
         one ReadWindowAggregate request (WindowEvery = every, Offset = offset) over one series
+    cal <agg> <typ> <months> <shape> <ts> <vals> <stops>
+        the same over a CALENDAR window: ReadWindowAggregateRequest.Window = {Every: {Months: months}};
+        stops[i] = stop of the window of ts[i], computed by the harness with the real flux interval
+        package (trusted input, re-checked by the harness when it executes the op)
     win <every> <period> <offset> <t> <k>
         interval.NewWindow(every, period, offset).GetLatestBounds(t), then k× NextBounds (k<0: PrevBounds)
   answers:
@@ -16,6 +20,7 @@
 -/
 import Influx.Proto
 import Influx.Model.WindowAggWire
+import Influx.Model.WindowAggReq
 import Influx.Spec.C20
 
 open Influx Influx.Proto Influx.WindowAgg Influx.WindowAgg.Wire
@@ -42,8 +47,18 @@ structure AggOp where
   /-- every shard's iterator returns a nil cursor: `multiShardArrayCursors.createCursor` returns nil -/
   allNil : Bool
 
+structure CalOp where
+  agg : Agg
+  typ : Typ
+  months : Int
+  shards : List (List (List (Pt Val)))
+  allNil : Bool
+  /-- (timestamp, stop of its window) -/
+  stops : List (Int × Int)
+
 inductive Op where
   | agg (o : AggOp)
+  | cal (o : CalOp)
   | win (every period offset t k : Int)
 
 def parseOp : List String → Option Op
@@ -61,6 +76,20 @@ def parseOp : List String → Option Op
     else
       let shards ← cutShards shape (ts.zip vs)
       some (.agg ⟨a, ty, e, off, shards, shape.all (·.isEmpty)⟩)
+  | ["cal", a, ty, m, shape, ts, vs, stops] => do
+    let a ← parseAgg a
+    let ty ← parseTyp ty
+    let m ← m.toInt?
+    let shape ← parseShape shape
+    let ts ← parseInts ts
+    let vs ← (splitComma vs).mapM parseVal
+    let stops ← parseInts stops
+    if ts.length ≠ vs.length ∨ ts.length ≠ stops.length ∨ m ≤ 0 then none
+    else if !(vs.all fun v => typOf v == ty) then none
+    else if !sortedTs ts then none
+    else
+      let shards ← cutShards shape (ts.zip vs)
+      some (.cal ⟨a, ty, m, shards, shape.all (·.isEmpty), ts.zip stops⟩)
   | ["win", e, p, off, t, k] => do
     let e ← e.toInt?
     let p ← p.toInt?
@@ -70,7 +99,31 @@ def parseOp : List String → Option Op
     if p < 0 then none else some (.win e p off t k)
   | _ => none
 
-def blockSize : Nat := 1000   -- storage/reads MaxPointsPerBlock
+def blockSize : Nat := Influx.Generated.WAReq.MaxPointsPerBlock   -- storage/reads MaxPointsPerBlock (translated)
+
+/-- the window function of a calendar request: the explicit boundaries -/
+def calWin (o : CalOp) : Win := { isZero := false, stop := (Spec.C20.W.table o.stops).stopOf }
+
+/-- what the model answers for a calendar request: direction from the TRANSLATED
+    `IsLastDescendingAggregateOptimization`, cursor kind from the (non-zero) window -/
+def runCal (o : CalOp) : String :=
+  if o.allNil then "ok -"
+  else
+  match support o.agg o.typ with
+  | .unsupported => "err:unsupported"
+  | .panics => "err:panic"
+  | .ok =>
+    let desc := Influx.Generated.WAReq.IsLastDescendingAggregateOptimization (reqWindowMsg o.agg 0 o.months)
+    let n := (o.shards.flatten.flatten).length
+    match drain (Cursor.next blockSize o.typ.ops (calWin o)) (n + 2) (Cursor.newReqD desc o.agg (calWin o) o.shards) with
+    | none => "err:panic"
+    | some arrs => showArrs arrs
+
+/-- the trusted boundaries must look like tumbling windows: every point before the stop of its
+    window, and a later point before that stop iff it has the same stop -/
+def boundariesOK : List (Int × Int) → Bool
+  | [] => true
+  | (t, s) :: rest => decide (t < s) && rest.all (fun (u, s') => (decide (u < s)) == (s' == s)) && boundariesOK rest
 
 /-- what the model answers for one request -/
 def runAgg (o : AggOp) : String :=
@@ -94,6 +147,7 @@ def runAgg (o : AggOp) : String :=
 def step (_ : Unit) (toks : List String) : Unit × String :=
   match parseOp toks with
   | some (.agg o) => ((), runAgg o)
+  | some (.cal o) => ((), runCal o)
   | some (.win e p off t k) =>
     let w : Window.Window := ⟨e, p, off⟩
     if !w.valid then ((), "err:window")
@@ -117,6 +171,20 @@ def oracle1 (toks : List String) (ans : String) : Verdict :=
       let want := s!"b {start} {start + p}"
       { ok := ans == want, nontrivial := true, tags := ["win"],
         reason := if ans == want then "" else "interval-bounds:" ++ "_".intercalate toks }
+  | some (.cal o) =>
+    if o.allNil then { ok := true, nontrivial := false, tags := ["req:no-cursor"] }
+    else if support o.agg o.typ ≠ .ok then { ok := true, nontrivial := false, tags := ["req:unsupported-type"] }
+    else if !boundariesOK o.stops then Verdict.fail "bad-boundaries"
+    else
+      let pts := o.shards.flatten.flatten
+      let obs := parseArrs ans
+      let c : Spec.C20.Case Val := ⟨o.agg, .table o.stops, pts, obs⟩
+      let ok := Spec.C20.holdsOn o.typ.ops c
+      let nt : Bool := !pts.isEmpty
+      let why : String := "window-aggregate-differs:" ++ Agg.name o.agg ++ "_calendar_months=" ++ toString o.months ++
+        "_n=" ++ toString pts.length ++ "_got=" ++ ((ans.take 60).replace " " "_")
+      { ok := ok, nontrivial := nt, tags := ["agg:" ++ Agg.name o.agg, "w:calendar"],
+        reason := if ok then "" else why }
   | some (.agg o) =>
     if o.every ≤ 0 then { ok := true, nontrivial := false, tags := ["req:bad-every"] }
     else if o.allNil then
